@@ -87,6 +87,7 @@ func VerifC05GateAfterUnlockLong() {
 func VerifC05GateLocked() {
 	n := rt.NondetLen(1, 3)
 	right, wrong := rt.NondetBytes(n), rt.NondetBytes(rt.NondetLen(0, 3))
+	rt.Secret(right) // no error or log text of the gate depends on the stored passphrase (secret.go)
 	rt.Assume(!bytes.Equal(right, wrong))
 	rt.Assume(!c05SameHMACKey(right, wrong)) // those candidates: VerifC05GateLockedZeroPadded
 	a := c05Manager(right)
@@ -118,6 +119,7 @@ func VerifC05GateLocked() {
 func VerifC05GateAfterUnlock() {
 	n := rt.NondetLen(1, 3)
 	right, wrong := rt.NondetBytes(n), rt.NondetBytes(rt.NondetLen(0, 3))
+	rt.Secret(right) // no error or log text of the gate depends on the stored passphrase (secret.go)
 	rt.Assume(!bytes.Equal(right, wrong))
 	a := c05Manager(right)
 	copy(a.privPassphraseSalt[:], rt.NondetBytes(len(a.privPassphraseSalt)))
@@ -169,6 +171,7 @@ func VerifC05UnlockedOperations() {
 		acctInfo: &accountInfo{}, branchInfo: &branchInfo{}, masterKeyPriv: sk, cryptoKeyPriv: &cryptoKey{}, storage: store.GetBucketMeta()}
 	// stored secrets: the entropy under a random crypto key, that key under the master key
 	entropy := rt.NondetBytes(16)
+	rt.Secret(right, entropy) // no error or log text of the operations below depends on the passphrase or the entropy
 	var ek cryptoKey
 	ek.CopyBytes(rt.NondetBytes(32))
 	entropyEnc, err := ek.Encrypt(entropy)
